@@ -1112,3 +1112,11 @@ Example late_reads_witness :
   /\ ctx_released true true HjBrFbr = false
   /\ hijack_late true true HjBrFbr [1; 2; 3]%N [] 1 = LateAll [2; 3]%N.
 Proof. vm_compute. tauto. Qed.
+
+(* ---------- C10: guard and refutation ---------- *)
+Lemma clean_handler_guard (E : env) :
+  (forall num q v, In (SetHdrConn v) (handler E num q) -> clean v = true) -> handler_guard E.
+Proof.
+  intros H num q v Hin. apply clean_value_guard. eapply H. exact Hin.
+Qed.
+
